@@ -219,3 +219,7 @@ func VerifTypeOf(vm *VM, v Value) string { return v.t.str(vm.globals) }
 
 // VerifRawType returns the raw tag (for distinguishing untyped constants).
 func VerifRawType(v Value) int { return int(v.t) }
+
+// VerifInstrSize is the size in bytes of one compiled instruction: function bodies are sub-slices of one
+// instruction array, so (frame address - array address) / VerifInstrSize() is an absolute instruction index.
+func VerifInstrSize() uintptr { return unsafe.Sizeof(instruction{}) }
